@@ -51,8 +51,13 @@ def lex(text):
                 j += 1
             out.append(text[i:j])
             i = j
-        elif c == '"':
-            j = text.index('"', i + 1)
+        elif c in "\"'":
+            # string literal / character constant: up to the matching quote, a backslash escapes the next character
+            j = i + 1
+            while j < n and text[j] != c:
+                j += 2 if text[j] == "\\" else 1
+            if j >= n:
+                raise ValueError("unterminated literal")
             out.append(text[i:j + 1])
             i = j + 1
         elif text[i:i + 2] in ops2:
